@@ -51,7 +51,7 @@ func c14Specs() []*edt.Spec {
 				"(0 < φL0.2)":                                                         "wantMore",
 				"(Hash.Size($hFunc) < φL0.2)":                                         "fullChunk",
 			},
-			Ignore: []string{"((φL1.0 + 1) < len("},
+			Ignore: []string{"(φL1.0 < len("},
 			Classify: func(p *edt.Path, out string, e *edt.Env) string {
 				switch {
 				case strings.HasPrefix(out, "err(fmt.Errorf("):
